@@ -211,10 +211,16 @@ def build_index(episodes: List[dict], dim: int = 32):
     enc = DeterministicEmbeddingAdapter(dim=dim)
     idx = InMemoryIndex()
     for e in episodes:
-        ep = {k: copy.deepcopy(v) for k, v in e.items() if k != "vec"}
+        ep = {k: copy.deepcopy(v) for k, v in e.items() if k not in ("vec", "vec_store")}
         v = e.get("vec", "enc")
         if v == "enc":
             ep["vec_full"] = enc.encode([e.get("text", "")])[0]
+            # how the caller stored the vector: the adapter's float32 array, a float64 array (numpy's default), a plain list
+            kind = e.get("vec_store")
+            if kind == "f64":
+                ep["vec_full"] = np.asarray(ep["vec_full"], dtype=np.float64)
+            elif kind == "list":
+                ep["vec_full"] = [float(x) for x in ep["vec_full"]]
         elif isinstance(v, str) and v.startswith("enc:"):
             ep["vec_full"] = enc.encode([v[4:]])[0]
         elif v == "zero":
